@@ -806,7 +806,22 @@ fn write_evidence(
         ("step_unit", J::s(info.step_unit)),
         (
             "simulated_time",
-            J::s("none: the code under test reads no clock and has no timers; progress is measured in steps"),
+            J::s({
+                use std::sync::atomic::Ordering;
+                let worlds = crate::procworld::CLOCK_WORLDS.load(Ordering::Relaxed);
+                let readings = crate::procworld::CLOCK_READINGS.load(Ordering::Relaxed);
+                let ms = crate::procworld::CLOCK_SIMULATED_MS.load(Ordering::Relaxed);
+                if worlds == 0 {
+                    "none: no process of this batch ran under the clock seam; in-process the code under test has no clock to read and no timers; progress is measured in steps".to_string()
+                } else {
+                    format!(
+                        "{} child processes ran under the clock seam (preloaded shim: skewed wall clock, 0.7-90 s passing per reading); they read a clock {} times, which covered {:.1} s of simulated time (0 readings = the code under test never looked at a clock, so no time-dependent behaviour exists to explore); progress is otherwise measured in steps",
+                        worlds,
+                        readings,
+                        ms as f64 / 1000.0
+                    )
+                }
+            }),
         ),
         ("distinct_histories", J::U(res.distinct_histories)),
         ("distinct_histories_measure", J::s(info.history_measure)),
